@@ -27,7 +27,7 @@ def kth_permutation(items, k):
   return out
 
 
-def judge(n, adj, perm, via_lookup):
+def judge(n, adj, perm, via_lookup, edit=None):
   cols = ["C%d" % i for i in range(n)]
   d = F.Doc(replica=False)
   e = d.e
@@ -52,24 +52,49 @@ def judge(n, adj, perm, via_lookup):
     d.apply(["BulkAddRecord", "T", [None, None], {"D": [10, 20]}])
   except Exception as ex:
     return "recalculation raised %s: %s" % (type(ex).__name__, str(ex)[:200])
-  td = e.fetch_table("T")
-  r = reach(adj, n)
-  for i in range(n):
-    for row, dv in enumerate([10, 20]):
-      v = td.columns[cols[i]][row]
-      if r[i][i]:
-        if not (isinstance(v, objtypes.RaisedException) and v._name == "CircularRefError"):
-          return "%s row %d depends on itself but holds %r instead of CircularRefError" % (cols[i], row + 1, F.enc(v))
-      elif not any(r[i][k] and r[k][k] for k in range(n)):
-        def val(i):
-          return dv + i + 1 + sum(val(j) for j in range(n) if adj[i][j])
-        if v != val(i):
-          return "%s row %d neither lies on nor depends on a cycle: expected %s, got %r" % (cols[i], row + 1, val(i), F.enc(v))
+  def formula(i, row_):
+    terms = ["$D + %d" % (i + 1)]
+    for j in range(n):
+      if row_[j]:
+        terms.append(("T.lookupOne(id=$id).%s" % cols[j]) if (via_lookup and i == n - 1) else "$%s" % cols[j])
+    return " + ".join(terms)
+  m = _verdict(e, cols, adj, n, [10, 20], "")
+  if m:
+    return m
+  if edit is not None:
+    # second bundle: one column gets a new set of references (cycles appear, change or are broken)
+    k, mask = edit
+    adj = [list(r_) for r_ in adj]
+    adj[k] = [(mask >> j) & 1 for j in range(n)]
+    try:
+      d.apply(["ModifyColumn", "T", cols[k], {"formula": formula(k, adj[k])}])
+    except Exception as ex:
+      return "changing the formula of %s raised %s: %s" % (cols[k], type(ex).__name__, str(ex)[:200])
+    m = _verdict(e, cols, adj, n, [10, 20], "after %s := %r: " % (cols[k], formula(k, adj[k])))
+    if m:
+      return m
   # a later edit still works
   try:
     d.apply(["UpdateRecord", "T", 1, {"D": 11}])
   except Exception as ex:
     return "a later edit raised %s: %s" % (type(ex).__name__, str(ex)[:200])
+  return _verdict(e, cols, adj, n, [11, 20], "after a data edit: ")
+
+
+def _verdict(e, cols, adj, n, dvals, pfx):
+  td = e.fetch_table("T")
+  r = reach(adj, n)
+  for i in range(n):
+    for row, dv in enumerate(dvals):
+      v = td.columns[cols[i]][row]
+      if r[i][i]:
+        if not (isinstance(v, objtypes.RaisedException) and v._name == "CircularRefError"):
+          return pfx + "%s row %d depends on itself but holds %r instead of CircularRefError" % (cols[i], row + 1, F.enc(v))
+      elif not any(r[i][k] and r[k][k] for k in range(n)):
+        def val(i):
+          return dv + i + 1 + sum(val(j) for j in range(n) if adj[i][j])
+        if v != val(i):
+          return pfx + "%s row %d neither lies on nor depends on a cycle: expected %s, got %r" % (cols[i], row + 1, val(i), F.enc(v))
   return None
 
 
@@ -78,7 +103,8 @@ def _decode(n, h_get):
 
 
 def make_body(shard):
-  n, first_row, via_lookup = shard
+  n, first_row, via_lookup = shard[:3]
+  edit_mode = shard[3] if len(shard) > 3 else None
 
   def body(h):
     adj = [[0] * n for _ in range(n)]
@@ -87,22 +113,28 @@ def make_body(shard):
     for i in range(1, n):
       for j in range(n):
         adj[i][j] = h.int("e%d%d" % (i, j), 0, 2)
-    perm = h.int("perm", 0, math.factorial(n))
-    msg = judge(n, adj, perm, via_lookup)
-    w = {"n": n, "adj": adj, "perm": perm, "via_lookup": via_lookup}
+    edit = None
+    if edit_mode:
+      perm = h.int("perm", 0, math.factorial(n)) if edit_mode == "full" else 0
+      edit = (h.int("editcol", 0, n), h.int("editmask", 0, 2 ** n) if edit_mode == "full" else 0)
+    else:
+      perm = h.int("perm", 0, math.factorial(n))
+    msg = judge(n, adj, perm, via_lookup, edit)
+    w = {"n": n, "adj": adj, "perm": perm, "via_lookup": via_lookup, "edit": edit}
     return {"nontrivial": any(any(r) for r in adj), "violations": ([{"msg": msg, "witness": w}] if msg else []), "sample": w}
   return body
 
 
 def hang_witness(shard, trace):
-  n, first_row, via_lookup = shard
+  n, first_row, via_lookup = shard[:3]
   adj = [[0] * n for _ in range(n)]
   for j in range(n):
     adj[0][j] = (first_row >> j) & 1
   for i in range(1, n):
     for j in range(n):
       adj[i][j] = int(trace.get("e%d%d" % (i, j), 0))
-  return {"n": n, "adj": adj, "perm": int(trace.get("perm", 0)), "via_lookup": via_lookup}
+  edit = (int(trace["editcol"]), int(trace.get("editmask", 0))) if "editcol" in trace else None
+  return {"n": n, "adj": adj, "perm": int(trace.get("perm", 0)), "via_lookup": via_lookup, "edit": edit}
 
 
 def SHARDS(tier):
@@ -111,7 +143,10 @@ def SHARDS(tier):
     for fr in range(8):
       out.append(((3, fr, False), None))
       out.append(((3, fr, True), 60.0))
+      out.append(((3, fr, False, "clear"), 90.0))
   else:
+    for fr in range(8):
+      out.append(((3, fr, False, "full"), 900.0))
     for fr in range(16):
       out.append(((4, fr, False), 500.0))
       out.append(((4, fr, True), 200.0))
@@ -122,7 +157,7 @@ def SHARDS(tier):
 
 
 def replay(w):
-  m = judge(w["n"], w["adj"], w["perm"], w["via_lookup"])
+  m = judge(w["n"], w["adj"], w["perm"], w["via_lookup"], tuple(w["edit"]) if w.get("edit") else None)
   return [m] if m else []
 
 
@@ -130,7 +165,8 @@ META = {
   "files": ["sandbox/grist/engine.py", "sandbox/grist/depend.py"],
   "oracle": "graph reachability computed by the harness: a cell that depends on itself holds CircularRefError; a cell that neither "
             "lies on nor reaches a cycle holds D + i + 1 + sum(deps); apply_user_actions raises nothing (in particular not 'not "
-            "making progress'); a run that does not terminate is a violation; a later edit still works",
+            "making progress'); a run that does not terminate is a violation; re-judged after a second bundle that gives one column a new "
+            "set of references (quick: clears them; thorough: any subset, any schedule) and after a later data edit",
   "rule": "one evaluation = one (adjacency matrix, permutation of the initial work items) cube on a fresh document with two rows; "
           "non-trivial = at least one reference",
   "bounds": {"columns": "3 (quick) / 4 (thorough)", "graphs": "all 2^(n*n) adjacency matrices incl. self loops (n=4: time-capped)",
